@@ -35,3 +35,36 @@ PROPS = {
          "level_text": "bounded exploration, exhaustive up to the stated length",
          "assumptions": [COMMON_B], "design_ref": "5 C20"},
 }
+
+def _b(pid, technique, expl, text, ref):
+    PROPS[pid] = {"level": "exploration", "technique": technique, "explanation": expl, "level_text": text,
+                  "assumptions": [COMMON_B], "design_ref": ref}
+
+
+_b("C04", "bounded stand-in: per-transformation executable contract (well-formedness, token sequence, documented constituent change) over all prerequisite-respecting sequences up to length L",
+   "Structural transformations keep the sentence and well-formedness.",
+   "bounded exploration (labelled bounded): sequences of length <=2 (quick) / <=3 (thorough) over all shapes n<=4/5 with punctuation / unary decorations", "5 C04")
+_b("C05", "bounded stand-in: boyd_split+raising against the set-based reference ref_raise on all shapes n<=5 x all head assignments",
+   "Crossing-branch removal equals the documented reference; outside the reach of pyvc (generator consumed while the tree is mutated).",
+   "bounded exploration; exhaustive over shapes and head assignments up to the bound", "5 C05")
+_b("C10", "bounded stand-in: three replay automata that rebuild the tree from (tokens, transitions) only",
+   "Transition sequences replay to the input tree.",
+   "bounded exploration over head-marked binarized trees n<=5/6", "5 C10")
+_b("C11", "bounded stand-in: token-editing transformations against reference semantics on token lists",
+   "Token editing changes exactly the targeted tokens.",
+   "bounded exploration", "5 C11")
+_b("C12", "bounded stand-in: root_attach against the set-based reference fixed in DESIGN 5 C12",
+   "root_attach equals the set-based reference; nothing but root children moves.",
+   "bounded exploration; shapes n<=6/7 exhaustive", "5 C12")
+_b("C13", "bounded stand-in: the three documented postconditions + frame on enumerated trees",
+   "Punctuation re-attachment.",
+   "bounded exploration", "5 C13")
+_b("C14", "bounded stand-in: binarize/unbinarize and collapse/uncollapse round trips on enumerated trees",
+   "Binarization and unary-chain collapsing are reversible normal forms.",
+   "bounded exploration", "5 C14")
+_b("C17", "bounded stand-in: exhaustive split specifications against an exact-integer reference + CLI split runs",
+   "Output splitting.",
+   "bounded exploration; exhaustive over specifications of <=3 parts and sizes 0..12 (quick)", "5 C17")
+_b("C18", "bounded stand-in: concatenation, history and hash-seed experiments through the API and the CLI",
+   "Sentence-local, deterministic, history-independent processing.",
+   "bounded exploration", "5 C18")
